@@ -41,7 +41,7 @@ def build(case):
     T0 = case.get('T0', 333.15)
     prog = None
     if case.get('program'):
-        prog = TemperatureProgram(coefficients=case.get('coefficients', [T0, -2.0, 0.1]), type=case.get('program_type', 'polynomial'))
+        prog = TemperatureProgram(coefficients=case.get('coefficients', [T0 + case.get('program_offset', 4.0), -2.0, 0.1]), type=case.get('program_type', 'polynomial'))
     x0 = case.get('x0', 0.15)
     comp = Composition(x0, 'weight')
     if case.get('comp_type', 'weight') == 'molar': comp = comp.to_molar(mix)
